@@ -73,6 +73,8 @@ type c18Backend struct {
 	rawGet func(id string, created int64) (*ref.KeyRecord, error)
 	// rawPut stores a record in the documented format, written by the reference.
 	rawPut func(id string, created int64, r *ref.KeyRecord) error
+	// unsupported lists requests outside the grammar of the fake behind this channel (machinery gap)
+	unsupported func() []string
 }
 
 type suffixedMemory struct {
@@ -213,6 +215,7 @@ func c18NewBackend(channel string, suffix string) *c18Backend {
 	case strings.HasPrefix(channel, "sql-"):
 		dialect := strings.TrimPrefix(channel, "sql-")
 		eng := doubles.NewFakeSQL(dialect)
+		b.unsupported = func() []string { return eng.Unsupported }
 		db := eng.Open()
 		sm := persistence.NewSQLMetastore(db, persistence.WithSQLMetastoreDBType(persistence.SQLMetastoreDBType(dialect)))
 		b.ms = sm
@@ -235,6 +238,7 @@ func c18NewBackend(channel string, suffix string) *c18Backend {
 		_ = sql.ErrNoRows
 	default:
 		fake := doubles.NewFakeDynamo("us-west-2", "EncryptionKey")
+		b.unsupported = func() []string { return fake.Unsupported }
 		if channel == "dynamodb-v1" {
 			b.ms = dynv1.NewDynamoDBMetastore(c13Session(), dynv1.WithDynamoDBRegionSuffix(suffix != ""), dynv1.WithClient(doubles.DynamoV1{F: fake}))
 		} else {
@@ -373,6 +377,14 @@ func c18Run(p c18Point, env *c18Env) (viols []kViol) {
 		k = env.aws
 	}
 	be := c18NewBackend(p.channel, suffix)
+	defer func() {
+		if be.unsupported != nil {
+			if u := be.unsupported(); len(u) > 0 {
+				// not evidence against the property: the fake behind this channel cannot interpret the request
+				viols = []kViol{{Prop: "C18", Sig: "MACHINERY-GAP", Msg: "the fake backend does not understand: " + u[0]}}
+			}
+		}
+	}()
 	if p.suffix {
 		if rs, ok := be.ms.(interface{ GetRegionSuffix() string }); !ok || rs.GetRegionSuffix() != suffix {
 			fail("suffix-not-reported", "metastore does not report region suffix %q", suffix)
@@ -616,6 +628,11 @@ func CheckC18(r *Report) {
 	sigSeen := map[string]bool{}
 	add := func(vs []kViol, ops interface{}) {
 		for _, v := range vs {
+			if v.Sig == "MACHINERY-GAP" {
+				r.MachineryError = v.Msg
+				r.Exhaustive = false
+				continue
+			}
 			r.Counters["violating-points"]++
 			if !sigSeen[v.Sig] {
 				sigSeen[v.Sig] = true
